@@ -246,7 +246,7 @@ func c09sameEncoding(a, b []byte) bool {
 // re-encodes to bytes that decode to the same getter results, or the encoder returns an error
 func VerifC09inv() {
 	l3install()
-	T, _, _, focus, _, _, _ := c04token()
+	T, _, g2, focus, _, _, _ := c04token()
 	T.put(99999, &vItem{kind: ikUint, u: 7}, ndBool("extra.key"))
 	buf := verifEncodeItem(T)
 	dec, err := DecodeClaimsFromCBOR(buf)
@@ -271,5 +271,8 @@ func VerifC09inv() {
 	buf3, err3 := EncodeClaimsToCBOR(dec2)
 	ndAssert("c09-invalid-reencoding-is-stable", err3 == nil && c09sameEncoding(buf2, buf3))
 	ndCover("c09inv-invalid-roundtrip", !valid)
-	ndCover("c09inv-valid-roundtrip", valid)
+	if !(g2 != nil && focus == 6) {
+		// (profile 2 with the component-list key in focus: nothing of that token space is valid)
+		ndCover("c09inv-valid-roundtrip", valid)
+	}
 }
